@@ -161,7 +161,7 @@ func runC08(rng *rand.Rand, ncases int, emit emitter) error {
 	defer upc.Shutdown()
 	upc.Behave = c08behave
 	nodes := []*psim.Node{a, b, c}
-	if !psim.WaitFor(10*time.Second, func() bool { return psim.Settled(nodes, "") }) {
+	if !psim.WaitFor(30*time.Second, func() bool { return psim.Settled(nodes, "") }) {
 		return fmt.Errorf("c08: did not settle")
 	}
 	entry := map[string]*psim.Node{"forwarded": a, "local": b}
